@@ -10,6 +10,7 @@ def run(ctx):
     mods = ["TomlVerif.Props.C14", "driver"]
     lake_build(ctx, mods, {"TomlVerif.Props.C14": "property theorems"})
     audit(ctx, "TomlVerif.Props.C14", "TomlVerif/Props/C14.lean")
+    extra_props(ctx, ['C14Doc'])
     if ctx.tier == "thorough":
         leanchecker(ctx, "TomlVerif.Props.C14")
     tvh = cargo_build(ctx)
